@@ -209,4 +209,24 @@ CLAIMED = {
                      "cases replayed into both estimators",
         "design_ref": "DESIGN.md section 4 (C13)",
     },
+    "C16": {
+        "text": "FwdOps.tla, part A: exact integer index algebra of patch extraction with wrap-around and "
+                "repeated indices; TLC checks Adjoint (<Gather o, p> = <o, Scatter p>) and ScatterConserves "
+                "and rejects an overwriting scatter; exported cases are replayed into sum_patches (bit-exact, "
+                "real and complex dtypes) and the library's own patch-index tables (with and without object "
+                "padding, non-square ROI) are validated against the specification's table by TLC "
+                "(FwdOpsTrace). Part B: an abelian group-action state machine (Translate in quarter pixels, "
+                "Propagate in slice units); TLC enumerates every walk of length 3/4 with its abstract end "
+                "state; the replayer executes the walks with fourier_shift_expand and the library's Fresnel "
+                "kernels and requires equal abstract state => equal wave (additivity, commutation, "
+                "propagate-and-back), integer shift = circular roll, and invariant total intensity. Pipeline "
+                "laws on fixtures with 1-3 slices, 1-3 modes, fractional positions and padding: pure-phase "
+                "objects conserve the probe intensity in every pattern; fourier_projection is idempotent "
+                "and yields the measured amplitudes (zeros included).",
+        "note": "Trusted: TLC, the synthetic fixture; numeric tolerance 2e-4 relative. Fresnel kernels come "
+                "from probe_model._compute_propagator_arrays (no public wrapper).",
+        "technique": "TLA+ exact index algebra and group-action model checked by TLC; exported cases/walks "
+                     "replayed; library index tables validated against the spec with TLC",
+        "design_ref": "DESIGN.md section 4 (C16)",
+    },
 }
